@@ -8,6 +8,7 @@ from .engine import (Mir, Engine, IntV, BoolV, StructV, EnumV, RefV, Opaque, Cel
 VERIF = '/verif'
 CACHE = VERIF + '/.cache'
 MIRDIR = os.environ.get('VERIF_MIRDIR', CACHE + '/mir')
+EVID = os.environ.get('VERIF_EVIDENCE_DIR', VERIF + '/evidence')     # scratch runs against another tree must not touch the committed evidence
 REPO = os.environ.get('VERIF_REPO', '/repo')
 
 STD_OPAQUE = [r'sol_log', r'fmt::', r'^format$', r'MarginfiError', r'anchor_lang::error', r'to_string', r'Arguments',
@@ -17,7 +18,7 @@ U64_MAX = 2**64 - 1
 
 
 def ensure_mir():
-    r = subprocess.run([VERIF + '/tools/mirdump.sh'], capture_output=True, text=True)
+    r = subprocess.run([VERIF + '/tools/mirdump.sh', MIRDIR], capture_output=True, text=True)
     if r.returncode != 0:
         print(r.stdout[-3000:], r.stderr[-3000:])
         raise SystemExit(2)
@@ -153,14 +154,15 @@ class Ob:
         for h in hyps: s.add(h)
         return s
 
-    def prove(self, eng, r, hyps, goal, label, timeout=30000, role=None, replay=None, extra_assumptions=()):
+    def prove(self, eng, r, hyps, goal, label, timeout=90000, role=None, replay=None, extra_assumptions=()):
         """unsat(hyps ∧ pc ∧ ¬goal)?"""
         s = self._solver(eng, r, list(hyps) + list(extra_assumptions), timeout)
         s.add(z3.Not(goal))
         t = time.time(); res = s.check(); dt = time.time() - t
-        self.queries += 1; self.solver_s += dt
+        self.queries += 1; self.solver_s += dt; self.max_query_s = max(getattr(self, 'max_query_s', 0.0), dt)
         if res == z3.unsat:
             self.unsat += 1
+            self._second_opinion(s, label)
             if len(self.samples) < 2:
                 self.samples.append({'obligation': self.oid, 'goal': label, 'verdict': 'unsat', 'solver_s': round(dt, 3),
                                      'smt2_head': s.to_smt2()[-600:]})
@@ -185,12 +187,35 @@ class Ob:
         self.notes.append(f'UNKNOWN {label} ({s.reason_unknown()})')
         return 'unknown'
 
+    def _second_opinion(self, s, label):
+        """thorough tier: a sample of the z3 `unsat` verdicts per obligation is re-decided by cvc5 on the emitted SMT-LIB text;
+        cvc5 `sat` = the two solvers disagree = the obligation is UNDECIDED (exit 2); cvc5 timeouts/unknowns are only counted"""
+        if os.environ.get('VERIF_TIER') != 'thorough': return
+        n = getattr(self, 'xcheck', {'asked': 0, 'agree': 0, 'unknown': 0, 'disagree': 0})
+        self.xcheck = n
+        if n['asked'] >= int(os.environ.get('VERIF_XCHECK_PER_OB', '3')): return
+        n['asked'] += 1
+        import tempfile
+        try:
+            with tempfile.NamedTemporaryFile('w', suffix='.smt2', delete=False, dir=CACHE) as fh:
+                fh.write('(set-logic ALL)\n' + s.to_smt2()); path = fh.name
+            out = subprocess.run(['cvc5', '--lang', 'smt2', '--tlimit=20000', path], capture_output=True, text=True, timeout=40)
+            os.remove(path)
+            verdict = (out.stdout.strip().splitlines() or ['unknown'])[0]
+        except Exception as ex:
+            verdict = 'unknown'
+        if verdict == 'unsat': n['agree'] += 1
+        elif verdict == 'sat':
+            n['disagree'] += 1; self.unknown += 1
+            self.notes.append(f'UNDECIDED {label}: z3 says unsat, cvc5 says sat on the same SMT-LIB text')
+        else: n['unknown'] += 1
+
     def structural(self, label, role, model=None):
         """a required guard / call is ABSENT on an accepting path of the real code: counterexample at the encoding level (the trace is the artefact)"""
         self.queries += 1; self.sat += 1
         self.cex.append({'ob': self.oid, 'label': label, 'role': role, 'model': model or {}, 'replay': None})
 
-    def witness(self, eng, r, hyps, label='reach', timeout=30000):
+    def witness(self, eng, r, hyps, label='reach', timeout=90000):
         """vacuity guard: hyps ∧ pc must be satisfiable"""
         s = self._solver(eng, r, hyps, timeout)
         t = time.time(); res = s.check(); self.solver_s += time.time() - t
@@ -231,9 +256,10 @@ class Ob:
     def summary(self):
         for k, v in getattr(self, 'sat_labels', {}).items():
             self.notes.append(f'SAT x{v}: {k}')
+        if getattr(self, 'xcheck', None): self.notes.append(f"second solver (cvc5 1.0) on {self.xcheck['asked']} sampled unsat queries: {self.xcheck['agree']} agree, {self.xcheck['unknown']} unknown/timeout, {self.xcheck['disagree']} disagree")
         return {k: getattr(self, k) for k in ('oid', 'desc', 'functions', 'bounds', 'queries', 'unsat', 'sat', 'unknown',
                                               'witness_sat', 'witness_fail', 'paths', 'notes', 'errors')} | {
-            'solver_s': round(self.solver_s, 3), 'cex': self.cex, 'samples': self.samples}
+            'solver_s': round(self.solver_s, 3), 'max_query_s': round(getattr(self, 'max_query_s', 0.0), 3), 'cex': self.cex, 'samples': self.samples}
 
 
 class Report:
@@ -266,14 +292,14 @@ class Report:
                 if k:
                     known_hit.append((c, k[0])); continue
                 viol.append(c)
-        os.makedirs(VERIF + '/evidence/replays', exist_ok=True)
+        os.makedirs(EVID + '/replays', exist_ok=True)
         if not os.environ.get('VERIF_ONLY'):
             # a full run of this property owns its replay artefacts: drop the ones of earlier runs (e.g. on a different tree)
             import glob
-            for old_ in glob.glob(f'{VERIF}/evidence/replays/{self.pid}-*.json'): os.remove(old_)
+            for old_ in glob.glob(f'{EVID}/replays/{self.pid}-*.json'): os.remove(old_)
         vlines = []
         for i, c in enumerate(viol):
-            path = f"{VERIF}/evidence/replays/{self.pid}-{re.sub(r'[^A-Za-z0-9_.-]+', '_', c['ob'] + '-' + c['role'])[:80]}.json"
+            path = f"{EVID}/replays/{self.pid}-{re.sub(r'[^A-Za-z0-9_.-]+', '_', c['ob'] + '-' + c['role'])[:80]}.json"
             rep = {'property': self.pid, 'obligation': c['ob'], 'role': c['role'], 'goal': c['label'], 'model': c['model']}
             rp = c.get('replay')
             fn = None; spec = None
@@ -314,7 +340,7 @@ class Report:
                 'paths_explored': sum(o.get('paths', 0) for o in self.obs),
                 'functions_encoded': sorted({f for o in self.obs for f in o.get('functions', [])}),
                 'bounds': sorted({o['bounds'] for o in self.obs if o.get('bounds')}),
-                'obligation_table': [{k: o[k] for k in ('oid', 'desc', 'queries', 'unsat', 'sat', 'unknown', 'witness_sat', 'paths', 'solver_s', 'notes')} for o in self.obs],
+                'obligation_table': [{k: o[k] for k in ('oid', 'desc', 'queries', 'unsat', 'sat', 'unknown', 'witness_sat', 'paths', 'solver_s', 'max_query_s', 'notes')} for o in self.obs],
                 'kani': self.kani,
                 'samples': samples,
                 'exhaustive': False,
@@ -324,7 +350,7 @@ class Report:
             'wall_s': round(time.time() - self.t0, 2),
             'violations': len(vlines),
         }
-        json.dump(ev, open(f'{VERIF}/evidence/{self.pid}.json', 'w'), indent=1, default=str)
+        json.dump(ev, open(f'{EVID}/{self.pid}.json', 'w'), indent=1, default=str)
         for c, k in known_hit:
             print(f"KNOWN-FINDING: property={self.pid} {k.get('what', c['role'])}")
         for l in vlines:
